@@ -776,17 +776,12 @@ impl Regex {
             .map(|pos| self.input_from_position[pos as usize].clone())
             .collect();
 
-        let mut prev_ambiguous: Option<RegexInput> = None;
         for inp in inputs {
             if let Some(ref prev_inp) = path_prev_ambiguous {
                 return Err(Error::UnboundedMatchable(
                     prev_inp.get_span(),
                     inp.get_span(),
                 ));
-            }
-
-            if inp.is_star_subword() {
-                prev_ambiguous = Some(inp);
             }
         }
 
@@ -798,10 +793,17 @@ impl Regex {
                 continue;
             };
             visited.insert(pos);
+            // Only what follows the nonterminal itself is ambiguous, not what follows one of
+            // its alternatives: `k=(a{{{ c }}}|<X>)` is fine, `k=(<X>|a)b` is not.
+            let pos_ambiguous = self
+                .input_from_position
+                .get(pos as usize)
+                .filter(|inp| inp.is_star_subword())
+                .cloned();
             self.do_check_ambiguous_inputs_tail_only_subword(
                 follow,
                 followpos,
-                path_prev_ambiguous.clone().or(prev_ambiguous.clone()),
+                path_prev_ambiguous.clone().or(pos_ambiguous),
                 visited,
             )?;
         }
